@@ -5,6 +5,7 @@ package main
 import (
 	"go/token"
 	"go/types"
+	"strconv"
 	"strings"
 
 	"golang.org/x/tools/go/ssa"
@@ -319,6 +320,7 @@ func checkC20(p *Prog, r *Report) {
 
 	ruleLockReentry(p, ca, lockers, r, "R-C20-REENTRY")
 	ruleC20Clean(p, a, ca, r)
+	ruleC20SameLoad(p, a, ca, r)
 
 	// ---- R-C20-ISO
 	r.Begin("R-C20-ISO", "per-set state is per instance: the constructor gives every map/pointer field a fresh object; Template.Options is fresh and copied into", 4)
@@ -698,5 +700,68 @@ func ruleC20Clean(p *Prog, a *Anchors, ca *cacheAnchors, r *Report) {
 	}
 	if bad == 0 {
 		r.OK(name+":unconditional", p.Pos(f.Pos()), "branches depend only on the arguments")
+	}
+}
+
+// ruleC20SameLoad: whether the cache is used (Debug) decides only if the result is remembered, not what is loaded:
+// every FromFile call of the cache entry point is handed the same value — the name the caller gave — and not the
+// cache key, which is the name as resolved by the first loader only.
+func ruleC20SameLoad(p *Prog, a *Anchors, ca *cacheAnchors, r *Report) {
+	r.Begin("R-C20-SAMELOAD", "the caching entry point loads by the name it was given on every path (debug and cache miss alike); the normalised cache key is never what is handed to the loaders", 2)
+	var entry *ssa.Function
+	for _, f := range p.Methods(a.TemplateSet) {
+		if f.Object() == nil || !f.Object().Exported() {
+			continue
+		}
+		hasLookup, hasUpdate := false, false
+		for _, acc := range cacheAccesses(p, f, ca.cacheField) {
+			if acc.Kind == "lookup" {
+				hasLookup = true
+			}
+			if acc.Kind == "update" {
+				hasUpdate = true
+			}
+		}
+		if hasLookup && hasUpdate {
+			entry = f
+		}
+	}
+	if entry == nil {
+		r.Unk("entry", "-", "no exported method of TemplateSet both looks up and fills the cache")
+		return
+	}
+	var nameParam *ssa.Parameter
+	for _, pa := range entry.Params {
+		if b, ok := pa.Type().Underlying().(*types.Basic); ok && b.Kind() == types.String {
+			nameParam = pa
+		}
+	}
+	cnt := 0
+	for _, fn := range withClosures(entry) {
+		for _, c := range callsTo(fn, ca.fromFile) {
+			cnt++
+			arg := c.Common().Args[1]
+			key := p.FuncName(entry) + ":load"
+			if cnt > 1 {
+				key += "#" + strconv.Itoa(cnt)
+			}
+			v := arg
+			if u, ok := v.(*ssa.UnOp); ok {
+				if sv := localLoadValue(u); sv != nil {
+					v = sv
+				}
+				if fv, isFV := u.X.(*ssa.FreeVar); isFV {
+					_ = fv
+				}
+			}
+			if nameParam != nil && (v == ssa.Value(nameParam) || p.VN(v) == p.VN(nameParam)) {
+				r.OK(key, p.InstrPos(c.(ssa.Instruction)), "loads the name the caller gave")
+			} else {
+				r.Bad(key, p.InstrPos(c.(ssa.Instruction)), "FromFile is handed %s, not the name the caller gave: the loaders are asked for a name that went through the first loader's resolution already (a template that only a later loader has is never found unless Debug is on)", p.VN(arg))
+			}
+		}
+	}
+	if cnt == 0 {
+		r.Unk(p.FuncName(entry)+":load", p.Pos(entry.Pos()), "the cache entry point does not call FromFile")
 	}
 }
